@@ -274,5 +274,15 @@ class Explorer:
             except PathEnd:
                 end = "cut"
                 self.stats["cut_paths"] += 1
+            except Unsupported:
+                # paths are explored under the quantifier-free part of the path condition; a path
+                # that is infeasible under the full condition must not decide anything
+                s = z3.Solver()
+                s.set("timeout", 10000)
+                s.add(*path.pc)
+                if s.check() == z3.unsat:
+                    end = "infeasible"
+                else:
+                    raise
             self.stats["ended"][end] = self.stats["ended"].get(end, 0) + 1
         self.stats["explore_s"] = round(time.time() - t0, 3)
